@@ -846,13 +846,16 @@ fn degree_no_third(c: u32, e: u32, p: u32) {
 //# fns: Sat::from_degree
 //# assume: std integer parsing is under contract: u32::from_str_radix may return any value (stub); the text structure is exercised on one concrete string of this shape
 //# assume: Height::starting_sat / Height::subsidy are under their C29 contract (memoised stub height_contract)
-//# timeout: 900
+//# timeout: 1800
+//# tier: thorough
+//# assume: core::slice::memchr::memchr_aligned equals its naive definition (stub; std's word-at-a-time version makes CBMC's symbolic execution of the three-symbol text take > 13 min)
 #[cfg_attr(kani, kani::proof)]
 #[cfg_attr(kani, kani::unwind(36))]
 #[cfg_attr(kani, kani::stub(u32::from_str_radix, stub_u32_from_str_radix))]
 #[cfg_attr(kani, kani::stub(u64::from_str_radix, stub_u64_from_str_radix))]
 #[cfg_attr(kani, kani::stub(Height::starting_sat, contract_starting_sat))]
 #[cfg_attr(kani, kani::stub(Height::subsidy, contract_subsidy))]
+#[cfg_attr(kani, kani::stub(core::slice::memchr::memchr_aligned, naive_memchr_aligned))]
 pub fn c31_from_degree_sound_no_third() {
   let c: u32 = kani::any();
   kani::assume(c <= 5);
@@ -871,10 +874,14 @@ pub fn naive_memchr_aligned(x: u8, text: &[u8]) -> Option<usize> {
   None
 }
 
-//# props: C99
-//# kind: probe
+/// cycles 6 and later lie entirely past the last subsidy: no abbreviated degree there denotes a sat
+//# props: C31
+//# kind: complete (every cycle >= 6 with every epoch and period offset; text shape `C°E′P″`)
 //# fns: Sat::from_degree
-//# tier: manual
+//# assume: as c31_from_degree_sound_no_third
+//# timeout: 1800
+//# tier: thorough
+//# assume: core::slice::memchr::memchr_aligned equals its naive definition (stub; std's word-at-a-time version makes CBMC's symbolic execution of the three-symbol text take > 13 min)
 #[cfg_attr(kani, kani::proof)]
 #[cfg_attr(kani, kani::unwind(36))]
 #[cfg_attr(kani, kani::stub(u32::from_str_radix, stub_u32_from_str_radix))]
@@ -882,43 +889,6 @@ pub fn naive_memchr_aligned(x: u8, text: &[u8]) -> Option<usize> {
 #[cfg_attr(kani, kani::stub(Height::starting_sat, contract_starting_sat))]
 #[cfg_attr(kani, kani::stub(Height::subsidy, contract_subsidy))]
 #[cfg_attr(kani, kani::stub(core::slice::memchr::memchr_aligned, naive_memchr_aligned))]
-pub fn c99_nt_cycle0() {
-  degree_no_third(0, kani::any(), kani::any());
-}
-
-//# props: C99
-//# kind: probe
-//# fns: Sat::from_degree
-//# tier: manual
-#[cfg_attr(kani, kani::proof)]
-#[cfg_attr(kani, kani::unwind(36))]
-#[cfg_attr(kani, kani::stub(u32::from_str_radix, stub_u32_from_str_radix))]
-#[cfg_attr(kani, kani::stub(u64::from_str_radix, stub_u64_from_str_radix))]
-#[cfg_attr(kani, kani::stub(Height::starting_sat, contract_starting_sat))]
-#[cfg_attr(kani, kani::stub(Height::subsidy, contract_subsidy))]
-pub fn c99_nt_only_subsidy() {
-  let (c, e, p): (u32, u32, u32) = (kani::any(), kani::any(), kani::any());
-  set_parsed(c, e, p, 0);
-  let text = degree_text_no_third(c, e, p);
-  if let Ok(s) = Sat::from_degree(&text) {
-    let h = decided_height(s);
-    let (_start, sub) = height_contract(h);
-    assert!(0 < sub, "C31.from_degree.abbreviated_form_needs_a_block_with_a_subsidy");
-  }
-}
-
-/// cycles 6 and later lie entirely past the last subsidy: no abbreviated degree there denotes a sat
-//# props: C31
-//# kind: complete (every cycle >= 6 with every epoch and period offset; text shape `C°E′P″`)
-//# fns: Sat::from_degree
-//# assume: as c31_from_degree_sound_no_third
-//# timeout: 900
-#[cfg_attr(kani, kani::proof)]
-#[cfg_attr(kani, kani::unwind(36))]
-#[cfg_attr(kani, kani::stub(u32::from_str_radix, stub_u32_from_str_radix))]
-#[cfg_attr(kani, kani::stub(u64::from_str_radix, stub_u64_from_str_radix))]
-#[cfg_attr(kani, kani::stub(Height::starting_sat, contract_starting_sat))]
-#[cfg_attr(kani, kani::stub(Height::subsidy, contract_subsidy))]
 pub fn c31_from_degree_no_third_late_cycles() {
   let c: u32 = kani::any();
   kani::assume(c >= 6);
